@@ -40,7 +40,22 @@ FOCUS5 = ("In this round look in particular at changes whose result still LOOKS 
           "keyword of the constructors involved and pick those no example uses); and behaviour right after an "
           "unusual but legal first call (querying before anything was added, a batch of size 1 or 0, a first call with "
           "every candidate rejected).")
-FOCUS = {"4": FOCUS4, "5": FOCUS5}.get(sys.argv[3] if len(sys.argv) > 3 else "", FOCUS3)
+FOCUS6 = ("In this round look in particular at the classic PYTHON / NUMPY pitfalls a maintainer introduces in a clean-up, "
+          "each of which leaves ordinary runs untouched: truthiness conflation (`x or default`, `if x:` where x may "
+          "legitimately be 0, 0.0, an empty batch, seed 0, learning rate 0, sigma 0, an empty archive); `is` for `==` "
+          "or the reverse; a mutable default argument or a module-level / class-level container shared between "
+          "instances; a closure or lambda that captures a loop variable late; integer vs. true division, `int()` vs. "
+          "`round()` vs. floor for negatives; a sort whose tie order changes (argsort kind, stable vs. unstable, "
+          "`[::-1]` reversing the tie order, `max` / `argmax` first-vs-last on ties); a loop turned into a vectorised "
+          "NumPy expression that differs for DUPLICATE indices (`a[idx] += v` vs. `np.add.at`, last-write-wins vs. "
+          "first), for empty inputs, or for a batch of size 1 (`squeeze`, `(n,)` vs. `(n, 1)` broadcasting, `keepdims`, "
+          "`axis`); an in-place operator (`+=`, `out=`, `np.clip(..., out=)`, `sort()`) on something that is a view of "
+          "the caller's or of stored data; a dtype promotion or silent cast (int status arrays, bool masks, float32 "
+          "intermediates computed in float64 or the reverse, int32 overflow of an index product); negative or "
+          "out-of-range indices that wrap instead of failing; an exception swallowed or converted so that a failure is "
+          "silently ignored; reliance on dict / set iteration order; exact float equality where a tolerance was, or "
+          "the reverse.")
+FOCUS = {"4": FOCUS4, "5": FOCUS5, "6": FOCUS6}.get(sys.argv[3] if len(sys.argv) > 3 else "", FOCUS3)
 print(f"""You are testing how well a semantic property of the Python library pyribs (quality-diversity optimization; package `ribs`) is protected against regressions. You have your own scratch git worktree of the repository at {wt} (work ONLY there and in {wt}_out; do not read or touch /repo, /verif or any other directory outside {wt}, {wt}_out and the Python environment). Run Python with `PYTHONPATH={wt} /venv/bin/python` so that your modified copy of `ribs` is imported (check `ribs.__file__`). NEVER use `git stash` (it is shared between worktrees): use `git diff > file`, `git apply`, `git apply -R`, `git checkout -- .`.
 
 THE PROPERTY ({pid}: {p['title']}):
